@@ -410,8 +410,11 @@ class _StatementCompiler(StatementVisitor, _Compiler):
                 if format_desc.endswith("s"):
                     format_desc = format_desc[:-1]
                     value = f"value_to_string({value})"
-                format_string.append(f"{{:{format_desc}}}")
+                # The format specification is passed as a nested field instead of being spliced into
+                # the format string, where a brace used as the fill character would be misparsed.
+                format_string.append("{:{}}")
                 args.append(value)
+                args.append(repr(format_desc))
         format_string = "".join(format_string)
         args = ", ".join(args)
         return f"{format_string!r}.format({args})"
